@@ -16,179 +16,16 @@ import os
 import hv
 import asmx
 import simx
+import simunit
 
 PID = "C02"
 
-PRELUDE = r"""
-#include "cprelude.h"
-#include "isa.h"
-bool verif_thrown;
-/* --- ghost I/O: stream operations record one event; get() returns the harness's input oracle --- */
-enum { OPEN_out = 1, OPEN_in = 2 };
-int g_io_calls, g_ev_kind, g_ev_file, g_opens, g_open_idx, g_open_mode, g_open_name; bool g_ev_to_file; uint8_t g_ev_byte; int g_oracle_in;
-#define NAME_ID(s) ((sizeof(s) == 7 && (s)[0]=='s' && (s)[1]=='i' && (s)[2]=='m' && (s)[3]=='o' && (s)[4]=='u' && (s)[5]=='t') ? 1 : \
-                    (sizeof(s) == 6 && (s)[0]=='s' && (s)[1]=='i' && (s)[2]=='m' && (s)[3]=='i' && (s)[4]=='n') ? 2 : 0)
-#define EV_STDOUT(v) do { g_io_calls++; g_ev_kind = EV_WRITE; g_ev_to_file = false; g_ev_byte = (uint8_t)(v); } while (0)
-#define EV_FILE_PUT(i, v) do { __CPROVER_assert((i) < 8, "file index below 8"); g_io_calls++; g_ev_kind = EV_WRITE; g_ev_to_file = true; g_ev_file = (int)(i); g_ev_byte = (uint8_t)(v); } while (0)
-#define EV_OPEN(name, i, mode) do { __CPROVER_assert((i) < 8, "file index below 8"); g_opens++; g_open_idx = (int)(i); g_open_mode = (mode); g_open_name = NAME_ID(name); } while (0)
-static inline int EV_STDIN_GET(void) { g_io_calls++; g_ev_kind = EV_READ; g_ev_to_file = false; return g_oracle_in; }
-static inline int EV_FILE_GET(size_t i) { __CPROVER_assert(i < 8, "file index below 8"); g_io_calls++; g_ev_kind = EV_READ; g_ev_to_file = true; g_ev_file = (int)i; return g_oracle_in; }
-static void trace(uint32_t instr_, int instrEnum_);
-static void traceSyscall(void);
-"""
-
-ACCESSORS = r"""
-/* --- the one flat memory array: symbolic-size object, every access asserted in range --- */
-uint32_t *memory;
-static inline uint32_t RD(uint32_t a) { __CPROVER_assert(a < MEMORY_SIZE_WORDS, "hexsim memory index within the simulated memory"); return memory[a]; }
-static inline void WR_(uint32_t a, uint32_t v) { __CPROVER_assert(a < MEMORY_SIZE_WORDS, "hexsim memory store index within the simulated memory"); memory[a] = v; }
-#define WR(a, v) WR_((a), (v))
-"""
-
-HARNESS = r"""
-#ifdef HEX_CBMC
-static void trace(uint32_t instr_, int instrEnum_) { __CPROVER_assert(0, "trace() not reachable with tracing off"); }
-static void traceSyscall(void) { __CPROVER_assert(0, "traceSyscall() not reachable with tracing off"); }
-size_t nondet_size(void); uint32_t nondet_u32(void); int nondet_int(void); _Bool nondet_bool(void);
-
-static void havoc_state(void) {
-  size_t n = nondet_size();
-  __CPROVER_assume(n >= MEMORY_SIZE_WORDS && n <= 2 * MEMORY_SIZE_WORDS);
-  memory = malloc(n * sizeof(uint32_t));
-  __CPROVER_assume(memory != NULL);
-  pc = nondet_u32(); areg = nondet_u32(); breg = nondet_u32(); oreg = nondet_u32(); instr = nondet_u32();
-  lastPC = nondet_u32(); cycles = nondet_size(); maxCycles = nondet_size(); instrEnum = (Instr)nondet_int();
-  exitCode = nondet_int();
-  for (int i = 0; i < 8; i++) connected[i] = nondet_bool();
-  running = true; tracing = false; truncateInputs = true; verif_thrown = false;
-  g_io_calls = 0; g_ev_kind = EV_NONE; g_ev_file = 0; g_opens = 0; g_open_idx = -1; g_open_mode = 0; g_open_name = 0; g_ev_to_file = false; g_ev_byte = 0;
-  __CPROVER_assume(cycles < (size_t)1 << 62);
-}
-
-/* Hoare triple for one iteration of run()'s loop against the ISA specification */
-void h_step(void) {
-  havoc_state();
-  int cex_in = nondet_int();
-  __CPROVER_assume(cex_in >= -1 && cex_in <= 255); /* assumed contract of istream::get / fstream::get */
-  g_oracle_in = cex_in;
-  uint32_t cex_pc = pc, cex_areg = areg, cex_breg = breg, cex_oreg = oreg;
-  isa_state s = { pc, areg, breg, oreg, true, 0 };
-  isa_write w; isa_event ev; isa_status st;
-  isa_step(&s, memory, cex_in, &w, &ev, &st);
-  /* quantifier of the property: defined bytes, effective addresses inside the simulated memory */
-  __CPROVER_assume(st.defined && st.in_range);
-  /* the (at most five) words this step can read, recorded for replay on the real simulator */
-  uint32_t cex_opr = cex_oreg | ((memory[cex_pc >> 2] >> ((cex_pc & 3) << 3)) & 0xF);
-  uint32_t cex_op = ((memory[cex_pc >> 2] >> ((cex_pc & 3) << 3)) >> 4) & 0xF;
-  uint32_t cex_a0 = cex_pc >> 2, cex_a1 = 1;
-  uint32_t cex_a2 = (cex_op == 6) ? cex_areg + cex_opr : (cex_op == 7 || cex_op == 8) ? cex_breg + cex_opr : cex_opr;
-  if (cex_a2 >= MEMORY_SIZE_WORDS) cex_a2 = 1;
-  uint32_t cex_v0 = memory[cex_a0], cex_v1 = memory[1], cex_v2 = memory[cex_a2];
-  uint32_t cex_a3 = cex_v1 + 2 < MEMORY_SIZE_WORDS ? cex_v1 + 2 : 1, cex_a4 = cex_v1 + 3 < MEMORY_SIZE_WORDS ? cex_v1 + 3 : 1;
-  uint32_t cex_v3 = memory[cex_a3], cex_v4 = memory[cex_a4];
-  uint32_t k = nondet_u32(); __CPROVER_assume(k < MEMORY_SIZE_WORDS);
-  uint32_t old_k = memory[k];
-  int j = nondet_int(); __CPROVER_assume(j >= 0 && j < 8);
-  bool old_conn_j = connected[j];
-  bool old_conn_f = connected[ev.file_index];
-  size_t old_cycles = cycles; int old_exit = exitCode;
-
-  step();
-
-  __CPROVER_assert(!verif_thrown, "C02: no error raised for a defined instruction");
-  __CPROVER_assert(pc == s.pc, "C02: pc equals the ISA successor");
-  __CPROVER_assert(areg == s.areg, "C02: areg equals the ISA successor");
-  __CPROVER_assert(breg == s.breg, "C02: breg equals the ISA successor");
-  __CPROVER_assert(oreg == s.oreg, "C02: oreg equals the ISA successor (accumulated by PFIX/NFIX, cleared otherwise)");
-  __CPROVER_assert(memory[k] == ((w.wr && w.waddr == k) ? w.wdata : old_k), "C02: memory equals the ISA successor (stored word and frame)");
-  __CPROVER_assert(running == s.running, "C02: run continues exactly unless the exit call executed");
-  __CPROVER_assert(s.running || exitCode == (int)s.exit_value, "C02: exit value is the word at sp+2");
-  __CPROVER_assert(!s.running || exitCode == old_exit, "C02: exit value untouched while running");
-  /* I/O event */
-  __CPROVER_assert(g_io_calls == ((ev.kind == EV_WRITE || ev.kind == EV_READ) ? 1 : 0), "C02: exactly one stream operation per write/read call, none otherwise");
-  __CPROVER_assert(ev.kind == EV_EXIT || ev.kind == EV_NONE || g_ev_kind == (int)ev.kind, "C02: kind of stream operation");
-  __CPROVER_assert(!(ev.kind == EV_WRITE || ev.kind == EV_READ) || g_ev_to_file == ev.to_file, "C02: standard stream below 256, file otherwise");
-  __CPROVER_assert(!((ev.kind == EV_WRITE || ev.kind == EV_READ) && ev.to_file) || g_ev_file == (int)ev.file_index, "C02: file index is (stream >> 8) & 7");
-  __CPROVER_assert(ev.kind != EV_WRITE || g_ev_byte == ev.byte, "C02: byte written is the low byte of the word at sp+2");
-  /* files are opened lazily, exactly once, under the right name */
-  bool file_op = (ev.kind == EV_WRITE || ev.kind == EV_READ) && ev.to_file;
-  __CPROVER_assert(g_opens == ((file_op && !old_conn_f) ? 1 : 0), "C02: a stream file is opened exactly when first used");
-  __CPROVER_assert(g_opens == 0 || (g_open_idx == (int)ev.file_index && g_open_name == (ev.kind == EV_WRITE ? 1 : 2) && g_open_mode == (ev.kind == EV_WRITE ? OPEN_out : OPEN_in)),
-                   "C02: file opened is simout<n> for writing / simin<n> for reading");
-  __CPROVER_assert(connected[j] == (old_conn_j || (file_op && j == (int)ev.file_index)), "C02: connected[] frame");
-  /* bookkeeping used by run()'s loop condition and by tracing */
-  __CPROVER_assert(cycles == old_cycles + 1 && lastPC == cex_pc, "C02: one instruction retired per iteration");
-  __CPROVER_assert(tracing == false && truncateInputs == true, "C02: options untouched");
-#ifdef CANARY
-  __CPROVER_assert(0, "canary: harness end reachable");
-#endif
-}
-
-/* run(): the loop executes while running and within the cycle limit; it returns exitCode */
-void h_run_loop(void) {
-  havoc_state();
-  running = nondet_bool();
-  bool c = RUN_COND;
-  bool spec = running && (maxCycles == 0 || cycles <= maxCycles);
-  __CPROVER_assert(c == spec, "C02: run() iterates exactly while running and within --max-cycles");
-  __CPROVER_assert(&RUN_RETURNS == &exitCode, "C02: run() returns the exit value");
-#ifdef CANARY
-  __CPROVER_assert(0, "canary: harness end reachable");
-#endif
-}
-
-void h_cover(void) {
-  havoc_state();
-  g_oracle_in = nondet_int(); __CPROVER_assume(g_oracle_in >= -1 && g_oracle_in <= 255);
-  isa_state s = { pc, areg, breg, oreg, true, 0 };
-  isa_write w; isa_event ev; isa_status st;
-  isa_step(&s, memory, g_oracle_in, &w, &ev, &st);
-  __CPROVER_assume(st.defined && st.in_range);
-  uint32_t op = ((memory[pc >> 2] >> ((pc & 3) << 3)) >> 4) & 0xF;
-  step();
-  __CPROVER_cover(op == 0); __CPROVER_cover(op == 1); __CPROVER_cover(op == 2); __CPROVER_cover(op == 3); __CPROVER_cover(op == 4);
-  __CPROVER_cover(op == 5); __CPROVER_cover(op == 6); __CPROVER_cover(op == 7); __CPROVER_cover(op == 8); __CPROVER_cover(op == 9);
-  __CPROVER_cover(op == 10); __CPROVER_cover(op == 11); __CPROVER_cover(op == 13); __CPROVER_cover(op == 14); __CPROVER_cover(op == 15);
-  __CPROVER_cover(ev.kind == EV_WRITE && ev.to_file); __CPROVER_cover(ev.kind == EV_WRITE && !ev.to_file);
-  __CPROVER_cover(ev.kind == EV_READ && ev.to_file && g_opens == 1); __CPROVER_cover(ev.kind == EV_READ && !ev.to_file && g_oracle_in == -1);
-  __CPROVER_cover(ev.kind == EV_EXIT && !running); __CPROVER_cover(w.wr && w.waddr == MEMORY_SIZE_WORDS - 1);
-  __CPROVER_cover(op == 11 && (int)areg < 0); __CPROVER_cover(op == 13 && s.pc == breg && breg > 1000);
-}
-#else
-static void trace(uint32_t instr_, int instrEnum_) {}
-static void traceSyscall(void) {}
-#endif
-
-/* exported for the native fidelity run: one step on caller-provided memory */
-typedef struct { uint32_t pc, areg, breg, oreg; int running, exitCode, thrown; int io_calls, ev_kind, ev_to_file, ev_file, ev_byte; } XState;
-void X_step(XState *x, uint32_t *mem, int in_byte) {
-  memory = mem; pc = x->pc; areg = x->areg; breg = x->breg; oreg = x->oreg; running = true; tracing = false; truncateInputs = true;
-  verif_thrown = false; g_io_calls = 0; g_ev_kind = 0; g_ev_to_file = 0; g_ev_file = 0; g_ev_byte = 0; g_oracle_in = in_byte; exitCode = 0;
-  for (int i = 0; i < 8; i++) connected[i] = true; /* no opens in the fidelity run */
-  step();
-  x->pc = pc; x->areg = areg; x->breg = breg; x->oreg = oreg; x->running = running; x->exitCode = exitCode; x->thrown = verif_thrown;
-  x->io_calls = g_io_calls; x->ev_kind = g_ev_kind; x->ev_to_file = g_ev_to_file; x->ev_file = g_ev_file; x->ev_byte = g_ev_byte;
-}
-"""
-
-
 def build_unit(chk):
-    m = chk.manifest
-    en, _ = asmx.enums(m)
-    fld, names = simx.fields(m)
-    io, in_ty = simx.io_fns(m)
-    sysc = simx.syscall_fn(m, in_ty)
-    cond, step, ret = simx.run_parts(m)
-    text = (PRELUDE.replace('#include "isa.h"\n', '#include "isa.h"\n' + en, 1)
-            + fld + ACCESSORS + io + sysc + step + "#define RUN_COND (%s)\n#define RUN_RETURNS %s\n" % (cond, ret) + HARNESS)
-    return chk.write("c02_unit.c", text)
+    return chk.write("c02_unit.c", simunit.unit_text(chk) + simunit.HARNESS)
 
 
 def native(chk, unit):
-    obj = os.path.join(chk.out, "c02_unit.o")
-    rc, o, e, _ = hv.run(["gcc", "-O1", "-w", "-std=gnu11", "-c", "-I", os.path.join(hv.VERIF, "spec"), unit, "-o", obj], timeout=120)
-    if rc != 0:
-        raise hv.Infra("native build of extracted unit failed: " + e[-2000:])
+    obj = simunit.native_obj(chk, unit, "c02_unit")
     exe = os.path.join(chk.out, "c02_native")
     hv.build_native(os.path.join(hv.VERIF, "native", "c02_native.cpp"), exe, extra=[obj, os.path.join(hv.REPO, "hex.cpp")])
     return exe
